@@ -858,6 +858,34 @@ snarf_mailto(const char *line, size_t llen)
 	return (struct cal_addr_s){NULL};
 }
 
+static echs_toid_t
+snarf_autouid(const char *s, size_t z)
+{
+/* the name obint_name() makes up for a uid we generated (from the command)
+ * stands for that very uid, written to a queue file or listed it must
+ * lead back to the task */
+	static const char pre[] = "echse/autouid-0x";
+	static const char suf[] = "@echse";
+	echs_toid_t r = 0U;
+
+	if (z != strlenof(pre) + 8U + strlenof(suf) ||
+	    memcmp(s, pre, strlenof(pre)) ||
+	    memcmp(s + strlenof(pre) + 8U, suf, strlenof(suf))) {
+		return 0U;
+	}
+	for (const char *p = s + strlenof(pre), *const e = p + 8U; p < e; p++) {
+		r <<= 4U;
+		if (*p >= '0' && *p <= '9') {
+			r |= (echs_toid_t)(*p - '0');
+		} else if (*p >= 'a' && *p <= 'f') {
+			r |= (echs_toid_t)(*p - 'a' + 10);
+		} else {
+			return 0U;
+		}
+	}
+	return r;
+}
+
 static int
 snarf_fld(struct ical_vevent_s ve[static 1U],
 	  ical_fld_t fld, const char *eof, const char *vp, const char *const ep)
@@ -968,7 +996,9 @@ snarf_fld(struct ical_vevent_s ve[static 1U],
 		 * too bad we had to turn these off (b480f83 still has them) */
 		break;
 	case FLD_UID:
-		ve->t.oid = intern(vp, ep - vp);
+		if (!(ve->t.oid = snarf_autouid(vp, ep - vp))) {
+			ve->t.oid = intern(vp, ep - vp);
+		}
 		ve->uidp = vp < ep;
 		break;
 	case FLD_SUMM:
